@@ -831,6 +831,29 @@ def np_allclose(a, b, rtol=Fraction(1, 10**5), atol=Fraction(1, 10**8)):
     return wrapb(b_and(*terms))
 
 
+def np_isclose(a, b, rtol=Fraction(1, 10**5), atol=Fraction(1, 10**8), equal_nan=False):
+    """elementwise |a - b| <= atol + rtol*|b| (numpy's asymmetric formula); scalar in, scalar out"""
+    scalar = not _isarr(a) and not _isarr(b)
+    a = asarr(a) if _isarr(a) else SArr.from_flat([a], ())
+    b = asarr(b) if _isarr(b) else SArr.from_flat([b], ())
+    rtol = rtol if isinstance(rtol, Fraction) else Fraction(rtol)
+    atol = atol if isinstance(atol, Fraction) else Fraction(atol)
+    shape, _, _ = _bshape(a.shape, b.shape)
+    va, vb = _broadcast_to(a, shape), _broadcast_to(b, shape)
+    out = []
+    for x, y in zip(va, vb):
+        fin = b_and(braw(f_isfinite(x)), braw(f_isfinite(y)))
+        close = braw(f_cmp('<=', f_abs(x - y), atol + rtol * f_abs(y)))
+        eqinf = b_and(b_not(braw(f_isfinite(x))), braw(f_cmp('==', x, y)))
+        t = b_or(b_and(fin, close), eqinf)
+        if equal_nan:
+            t = b_or(t, b_and(braw(f_isnan(x)), braw(f_isnan(y))))
+        out.append(wrapb(t))
+    if scalar or shape == ():
+        return out[0]
+    return SArr.from_flat(out, shape, 'b')
+
+
 def vec_norm(x):
     x = asarr(x)
     vals = x.flat()
